@@ -18,7 +18,8 @@ import (
 // C17: a case is an OpenAPI 2 document in document-tagged JSON (spec/DocJson.tla), built by TLC.
 // The driver renders it as JSON text, unmarshals it into openapi2.T, converts it with
 // openapi2conv.ToV3, validates the result (as returned, and again after marshalling it and loading
-// it with the real loader), converts back with openapi2conv.FromV3 and logs the documents
+// it with the real loader), converts back with openapi2conv.FromV3, converts that document to OpenAPI 3 once
+// more (and validates it) and logs the documents
 // (json.Marshal of what the library returned, projected mechanically to tagged JSON) and the
 // outcomes.  What the documents say - and whether they say the same - is decided by TLC
 // (spec/Api23.tla, spec/Trace_C17.tla).  No oracle here.
@@ -112,6 +113,21 @@ func c17TagJSON(v any) (tagged any, text []byte, err error) {
 	return c17Tag(g), text, nil
 }
 
+// c17After logs under key the document v as it is marshalled now, or only "<key>Same": true when its JSON text is
+// the text it had before (a compression of the log: TLC then has nothing to compare).
+func c17After(line map[string]any, key string, v any, before []byte) {
+	tagged, text, err := c17TagJSON(v)
+	if err != nil {
+		line[key+"Err"] = err.Error()
+		return
+	}
+	if string(text) == string(before) {
+		line[key+"Same"] = true
+		return
+	}
+	line[key] = tagged
+}
+
 type c17Case struct {
 	D   any `json:"d"`
 	Ids any `json:"ids"`
@@ -155,7 +171,7 @@ func c17Run(c *Case) []any {
 		return fail("un", c17Outcome(p, err), msg)
 	}
 	line["un"] = "ok"
-	rd, _, err := c17TagJSON(&doc2) // before ToV3, which edits its argument in places
+	rd, textRd, err := c17TagJSON(&doc2) // before ToV3, which edits its argument in places
 	if err != nil {
 		return fail("un", "error", "marshal of the unmarshalled document: "+err.Error())
 	}
@@ -171,15 +187,11 @@ func c17Run(c *Case) []any {
 			err = fmt.Errorf("nil document")
 			msg = err.Error()
 		}
-		if rd2, _, e2 := c17TagJSON(&doc2); e2 == nil { // the input after the call
-			line["rd2"] = rd2
-		}
+		c17After(line, "rd2", &doc2, textRd) // the input after the call
 		return fail("to3", c17Outcome(p, err), msg)
 	}
 	line["to3"] = "ok"
-	if rd2, _, e2 := c17TagJSON(&doc2); e2 == nil { // the input after the call: a conversion must not edit its argument
-		line["rd2"] = rd2
-	}
+	c17After(line, "rd2", &doc2, textRd) // the input after the call: a conversion must not edit its argument
 	d3, text3, err := c17TagJSON(doc3) // before FromV3, which edits its argument in places
 	if err != nil {
 		return fail("to3", "error", "marshal of the converted document: "+err.Error())
@@ -221,14 +233,46 @@ func c17Run(c *Case) []any {
 		return fail("from3", c17Outcome(p, err), msg)
 	}
 	line["from3"] = "ok"
-	if d3b, _, e3 := c17TagJSON(doc3); e3 == nil { // the input of FromV3 after the call
-		line["d3b"] = d3b
-	}
+	c17After(line, "d3b", doc3, text3)   // the input of FromV3 after the call
+	c17After(line, "rd3", &doc2, textRd) // the caller's OpenAPI 2 document after FromV3 (doc3 shares parts of it)
 	d2b, _, err := c17TagJSON(doc2b)
 	if err != nil {
 		return fail("from3", "error", "marshal of the document converted back: "+err.Error())
 	}
 	line["d2b"] = d2b
+
+	// 5. the document converted back is an OpenAPI 2 document again: v2 -> v3 once more, validated.  When the JSON
+	// text of the second OpenAPI 3 document is the text of the first, it is logged as "same" instead of a second
+	// time (a compression of the log: TLC then reads d3 for d3a).
+	var doc3a *openapi3.T
+	p, msg = guard(func() { doc3a, err = openapi2conv.ToV3(doc2b) })
+	if p || err != nil || doc3a == nil {
+		if err != nil {
+			msg = err.Error()
+		} else if !p {
+			err = fmt.Errorf("nil document")
+			msg = err.Error()
+		}
+		return fail("again", c17Outcome(p, err), msg)
+	}
+	line["again"] = "ok"
+	d3a, text3a, err := c17TagJSON(doc3a)
+	if err != nil {
+		return fail("again", "error", "marshal of the document converted again: "+err.Error())
+	}
+	if string(text3a) == string(text3) {
+		line["d3aSame"] = true
+	} else {
+		line["d3aSame"] = false
+		line["d3a"] = d3a
+	}
+	p, msg = guard(func() { err = doc3a.Validate(context.Background()) })
+	line["vala"] = c17Outcome(p, err)
+	if err != nil {
+		line["valaMsg"] = err.Error()
+	} else if p {
+		line["valaMsg"] = msg
+	}
 	return []any{line}
 }
 
